@@ -153,6 +153,9 @@ class RecThread(threading.Thread):
     def alive(self):
         return self.is_alive()
 
+    def is_started(self):
+        return self._started.is_set()
+
     def finished(self):
         return not self.is_alive()
 
@@ -248,14 +251,49 @@ def patched(world, patches):
             setattr(m, a, v)
 
 
+def _ns(module, **over):
+    d = {k: getattr(module, k) for k in dir(module) if not k.startswith('__')}
+    d.update(over)
+    return types.SimpleNamespace(**d)
+
+
 def threading_proxy():
-    return types.SimpleNamespace(Timer=VTimer, Thread=RecThread, Lock=threading.Lock,
-                                 RLock=threading.RLock, Event=threading.Event,
-                                 current_thread=threading.current_thread)
+    return _ns(threading, Timer=VTimer, Thread=RecThread)
 
 
 def socket_proxy():
-    return types.SimpleNamespace(socket=FakeSocket, error=OSError, timeout=TimeoutError)
+    import socket
+    return _ns(socket, socket=FakeSocket)
+
+
+def time_proxy(world):
+    import time
+    return _ns(time, time=world.time)
+
+
+def auto_patches(world, modules, virtual_time=False):
+    """replace whatever names the simulator modules use for Timer / Thread / threading / socket /
+    HTTPServer (so a change of import style does not break the harness)"""
+    import socket as real_socket
+    import time as real_time
+    out = []
+    for m in modules:
+        for name, val in list(vars(m).items()):
+            if val is threading.Timer:
+                out.append((m, name, VTimer))
+            elif val is threading.Thread:
+                out.append((m, name, RecThread))
+            elif val is threading:
+                out.append((m, name, threading_proxy()))
+            elif val is real_socket:
+                out.append((m, name, socket_proxy()))
+            elif val is real_socket.socket:
+                out.append((m, name, FakeSocket))
+            elif isinstance(val, type) and val.__name__ == 'HTTPServer':
+                out.append((m, name, FakeHTTPServer))
+            elif val is real_time and virtual_time:
+                out.append((m, name, time_proxy(world)))
+    return out
 
 
 def feed(system, text):
@@ -269,10 +307,14 @@ def feed(system, text):
             pass
 
 
-def observe(world, slots, with_alive=True):
-    """(alive ids, blocking ids, [((owner, attr), [id])])"""
-    alive = [o.vid for o in world.objs if o.alive()] if with_alive else None
-    blocking = [o.vid for o in world.objs if o.alive() and o.kind != 'socket' and not o.daemon] \
+def observe(world, slots, with_alive=True, force_alive=None):
+    """(alive ids, blocking ids, [((owner, attr), [id])]).  force_alive(obj): objects whose liveness
+    is a race in real time (daemon threads told to stop but not joined) count as alive, which is
+    what the ledger says about them."""
+    def is_alive(o):
+        return o.alive() or (force_alive is not None and force_alive(o))
+    alive = [o.vid for o in world.objs if is_alive(o)] if with_alive else None
+    blocking = [o.vid for o in world.objs if is_alive(o) and o.kind != 'socket' and not o.daemon] \
         if with_alive else None
     so = []
     for owner, attr, obj in slots:
